@@ -24,8 +24,12 @@ Exp(r) == IF r.ok = "ok" THEN [ok |-> "ok", stack |-> r.st.stack] ELSE [ok |-> "
 
 \* ---- count family
 CountOps == {"u32clz", "u32ctz", "u32clo", "u32cto", "ilog2"}
-CountArgs(op) == IF op = "ilog2" THEN {F0, F1, F2, Small(3), V31, VU, VP, <<1, 0, 1, 0>>, FNeg1, <<0, 0, 0, 32768>>}
-                 ELSE {F0, F1, F2, Small(6), <<0, 1, 0, 0>>, <<65535, 0, 0, 0>>, V31, <<65535, 32767, 0, 0>>, VU, <<65534, 65535, 0, 0>>, <<0, 65535, 0, 0>>}
+\* thorough tier (LEVEL = 2): every power of two, its predecessor and its successor
+P2F(k) == [i \in 1 .. 4 |-> IF i = (k \div 16) + 1 THEN 2 ^ (k % 16) ELSE 0]
+P2M1(k) == [i \in 1 .. 4 |-> IF i < (k \div 16) + 1 THEN LB - 1 ELSE IF i = (k \div 16) + 1 THEN 2 ^ (k % 16) - 1 ELSE 0]
+MoreArgs(maxbit) == IF LEVEL = 1 THEN {} ELSE {P2F(k) : k \in 0 .. maxbit} \cup {P2M1(k) : k \in 1 .. maxbit} \cup {[P2F(k) EXCEPT ![1] = @ + 1] : k \in 1 .. maxbit}
+CountArgs(op) == IF op = "ilog2" THEN {F0, F1, F2, Small(3), V31, VU, VP, <<1, 0, 1, 0>>, FNeg1, <<0, 0, 0, 32768>>} \cup MoreArgs(63)
+                 ELSE {F0, F1, F2, Small(6), <<0, 1, 0, 0>>, <<65535, 0, 0, 0>>, V31, <<65535, 32767, 0, 0>>, VU, <<65534, 65535, 0, 0>>, <<0, 65535, 0, 0>>} \cup MoreArgs(32)
 HintVals == {Small(h) : h \in 0 .. 65} \cup {VU, VP, FNeg1, <<0, 0, 0, 1>>}
 InjOf(op) == CASE op = "u32clz" -> "U32Clz" [] op = "u32ctz" -> "U32Ctz" [] op = "u32clo" -> "U32Clo" [] op = "u32cto" -> "U32Cto" [] op = "ilog2" -> "ILog2"
 CountCases == UNION {{[kind |-> "count", op |-> op, arg |-> a, honest |-> TRUE, hint |-> <<>>] : a \in CountArgs(op)}
@@ -33,6 +37,7 @@ CountCases == UNION {{[kind |-> "count", op |-> op, arg |-> a, honest |-> TRUE, 
 
 \* ---- ext2
 E2Args == {<<F1, F0>>, <<F0, F1>>, <<F2, Small(3)>>, <<FNeg1, FNeg1>>, <<VP, VU>>, <<F0, F0>>, <<<<4660, 22136, 36882, 43981>>, <<7, 0, 0, 1>>>>}
+          \cup (IF LEVEL = 1 THEN {} ELSE {<<FNeg1, F0>>, <<F0, FNeg1>>, <<F1, F1>>, <<F2, FNeg1>>, <<VU, VP>>, <<<<1, 0, 65535, 65535>>, <<0, 0, 65535, 65535>>>>, <<Small(3), F2>>})
 E2Hints(a) == LET h == IF a = M!E2Zero THEN <<F0, F0>> ELSE M!E2Inv(a) IN
               {<<FAdd(h[1], F1), h[2]>>, <<h[1], FAdd(h[2], F1)>>, <<h[2], h[1]>>, <<F0, F0>>, <<F1, F0>>, a, <<FNeg(h[1]), FNeg(h[2])>>, h}
 E2Cases == {[kind |-> "ext2", op |-> op, a |-> a, b |-> b, honest |-> TRUE, hint |-> <<>>] : op \in {"ext2inv", "ext2div"}, a \in E2Args, b \in {<<F2, F1>>, <<F0, F0>>}}
@@ -41,7 +46,9 @@ E2Cases == {[kind |-> "ext2", op |-> op, a |-> a, b |-> b, honest |-> TRUE, hint
 \* ---- u64 division: a, b as 4-limb naturals; candidate (q', r') with q' * b + r' = a (mod 2^64) and others
 N64(hi, lo) == <<lo % LB, lo \div LB, hi % LB, hi \div LB>>       \* from two small integers (each < 2^31)... limbs directly below
 DivA == {<<7, 0, 0, 0>>, <<0, 0, 0, 0>>, <<65535, 65535, 65535, 65535>>, <<1, 0, 1, 0>>, <<0, 0, 0, 32768>>, <<4660, 22136, 36882, 43981>>}
+        \cup (IF LEVEL = 1 THEN {} ELSE {<<65535, 65535, 0, 0>>, <<0, 0, 1, 0>>, <<65534, 65535, 65535, 65535>>, <<0, 0, 65535, 65535>>, <<1, 0, 0, 32768>>, <<43981, 4660, 1, 0>>})
 DivB == {<<1, 0, 0, 0>>, <<3, 0, 0, 0>>, <<65535, 65535, 0, 0>>, <<0, 0, 1, 0>>, <<0, 0, 256, 0>>, <<0, 0, 0, 1>>, <<0, 0, 0, 32768>>, <<65535, 65535, 65535, 65535>>, <<1, 0, 1, 0>>}
+        \cup (IF LEVEL = 1 THEN {} ELSE {<<2, 0, 0, 0>>, <<65535, 0, 0, 0>>, <<0, 1, 0, 0>>, <<65535, 65535, 1, 0>>, <<0, 0, 65535, 65535>>, <<7, 0, 0, 32768>>, <<65535, 65535, 65535, 32767>>})
 One64 == <<1, 0, 0, 0>>
 QDelta == {NPow2(j, 4) : j \in {0, 1, 16, 31, 32, 33, 40, 48, 56, 63}}
 Cand(a, b) ==
